@@ -366,7 +366,7 @@ def register_dispatcher_contracts(spec, sort):
         "len(self._event_queue) >= len(old(self._event_queue)) - k and "
         "all(self._event_queue[j] == old(self._event_queue)[k + j] "
         "for j in range(len(old(self._event_queue)) - k))")
-    C(q + 'dispatch_enabled.setter', params=dict(self=S, value=TBool), props=['C04'],
+    C(q + 'dispatch_enabled.setter', params=dict(self=S, value=TBool), props=['C04', 'C10'],
       requires=wf, modifies=['ghost:log', 'ghost:cnt', 'ghost:dlog'], open_effect=True,
       ghost_results={'k': TInt},
       ensures={
@@ -446,3 +446,154 @@ def register_dispatcher_contracts(spec, sort):
     }, decreases='len(self._event_queue) if self._dispatch_enabled else 0',
         havoc=['self._events', 'self._handlers', 'self._event_queue', 'self._dispatch_enabled',
                'ghost:log', 'ghost:alive', 'ghost:cnt', 'ghost:dlog'])
+
+
+# ===================================================== the event_handler decorator
+
+def register_decorator(spec):
+    """`cls.__events__` is a dict OBJECT found through the class hierarchy; the
+    decorator must build a fresh one for the decorated class and leave every other
+    class, and every existing dict object, as it was."""
+    EvMap = TSort('EvMap')
+    Em = spec.klass(None, 'EvMap', fields={'m': TDict(Str, Str)})
+    spec.sort_name('EvMap')
+    CLS_EV = z3.ArraySort(TypeS.sort, EvMap.sort)
+
+    def cls_ev(X):
+        if 'cls_ev' not in X.ghost:
+            X.ghost['cls_ev'] = z3.Const('cls_ev0', CLS_EV)
+        return X.ghost['cls_ev']
+    spec.ghost_decls['cls_ev'] = lambda X: X.ghost.__setitem__('cls_ev', z3.Const('cls_ev0', CLS_EV))
+    spec.define('events_obj', lambda X, t: ZV(cls_ev(X)[deref(t).t]))
+    spec.define('allocated', lambda X, o: ZV(spec.alloc_array(X, deref(o).t.sort())[deref(o).t]))
+
+    Tk = spec.sort_classes.get('Type') or spec.klass(None, 'Type')
+
+    def get_events(X, obj, node):
+        o = cls_ev(X)[obj.t]
+        if X.branch(o == none_of(EvMap.sort)):
+            X.raise_('AttributeError', '__events__', node=node)
+        spec.note_allocated(X, o)
+        return ZV(o)
+    Tk.attr_hooks['__events__'] = get_events
+
+    def set_events(X, obj, v, node):
+        v = deref(v)
+        if isinstance(v, ZV) and v.t.sort() == EvMap.sort:
+            new = v.t
+        else:
+            new = z3.Const(X.fresh_name('new_EvMap'), EvMap.sort)
+            alloc = spec.alloc_array(X, EvMap.sort)
+            X.assume(z3.Not(alloc[new]))
+            X.assume(new != none_of(EvMap.sort))
+            X.ghost['alloc_EvMap'] = z3.Store(alloc, new, True)
+            X.write_field(new, 'm', as_dictv(X, v))
+        X.ghost['cls_ev'] = z3.Store(cls_ev(X), obj.t, new)
+    Tk.attr_store_hooks['__events__'] = set_events
+
+    DT = TDict(Str, Str)
+
+    def as_dictv(X, v):
+        v = deref(v)
+        if isinstance(v, ZV) and v.t.sort() == EvMap.sort:
+            return deref(X.read_field(v.t, 'm'))
+        if isinstance(v, Con) and v.v == {}:
+            return DT.empty()
+        if isinstance(v, DictV):
+            return v
+        if isinstance(v, ListV):
+            # dict(zip(names, names)): every listed name maps to itself
+            s = prelude.list_to_set(X, v, Str)
+            vals = z3.Const(X.fresh_name('zipval'), z3.ArraySort(Str.sort, Str.sort))
+            k = z3.Const('k_zip', Str.sort)
+            X.assume(forall([k], vals[k] == k, patterns=[vals[k]]))
+            return DictV(Str, Str, s.arr, [vals])
+        X.unsupported('dict operand %r' % (v,))
+
+    def union(X, a, b):
+        """a | b : right-biased union, a new dict value."""
+        dom = z3.Const(X.fresh_name('or_dom'), a.dom.sort())
+        val = z3.Const(X.fresh_name('or_val'), a.vals[0].sort())
+        k = z3.Const('k_or', Str.sort)
+        X.assume(forall([k], dom[k] == z3.Or(a.dom[k], b.dom[k]), patterns=[dom[k]]))
+        X.assume(forall([k], val[k] == z3.If(b.dom[k], b.vals[0][k], a.vals[0][k]), patterns=[val[k]]))
+        return DictV(Str, Str, dom, [val])
+
+    def is_dictish(v):
+        return (isinstance(v, ZV) and v.t.sort() == EvMap.sort) or isinstance(v, DictV) or \
+            (isinstance(v, Con) and v.v == {}) or isinstance(v, ZipV)
+
+    def bitor(X, a, b, node):
+        if is_dictish(a) and is_dictish(b):
+            return union(X, as_dictv(X, zipped(X, a)), as_dictv(X, zipped(X, b)))
+        return None
+    spec.bitor_hooks = getattr(spec, 'bitor_hooks', []) + [bitor]
+
+    def inplace_or(X, cur, rhs, node):
+        if isinstance(cur, ZV) and cur.t.sort() == EvMap.sort:
+            # dict.__ior__: the SAME object is updated
+            new = union(X, as_dictv(X, cur), as_dictv(X, zipped(X, deref(rhs))))
+            X.write_field(cur.t, 'm', new)
+            return True
+        return False
+    spec.inplace_or_hooks = getattr(spec, 'inplace_or_hooks', []) + [inplace_or]
+
+    class ZipV(ZV):
+        pass
+
+    def zipped(X, v):
+        return v.names if isinstance(v, ZipV) else v
+
+    # zip(names, names) / dict(zip(...)) over the symbolic *event_names
+    prev_seq = spec.sequence_hook
+    b = {}
+
+    def my_zip(X, args, kw, node):
+        vs = [deref(a) for a in args]
+        if len(vs) == 2 and isinstance(vs[0], ListV) and vs[0] is vs[1] or (
+                len(vs) == 2 and isinstance(vs[0], ListV) and isinstance(vs[1], ListV)
+                and vs[0].n.eq(vs[1].n) and vs[0].ats[0].eq(vs[1].ats[0])):
+            z = ZipV(z3.IntVal(0))
+            z.names = vs[0]
+            return z
+        return None
+    spec.builtin_overrides = getattr(spec, 'builtin_overrides', {})
+    spec.builtin_overrides['zip'] = my_zip
+
+    def my_dict(X, args, kw, node):
+        if len(args) == 1 and isinstance(deref(args[0]), ZipV):
+            return as_dictv(X, deref(args[0]).names)
+        return None
+    spec.builtin_overrides['dict'] = my_dict
+
+    q = E + 'event_handler.<locals>.decorator'
+    inh_has = '(old(events_obj(cls)) != None and n in old(events_obj(cls).m))'
+    newmap = 'events_obj(cls).m'
+    nothing = 'len(event_names) == 0 and all(not (n in event_mappings) for n in Str)'
+    C = spec.contract
+    C(q, params=dict(cls=TypeS), closure_params=dict(event_names=TList(Str), event_mappings=DT),
+      props=['C03'], requires=['cls != None'], returns=TypeS,
+      modifies=['ghost:cls_ev', 'EvMap.m'],
+      ensures={
+          'returns-the-class': 'result == cls',
+          'nothing-to-add-nothing-changes': 'implies(%s, events_obj(cls) == old(events_obj(cls)))' % nothing,
+          'mapping-domain': (
+              'implies(not (%s), events_obj(cls) != None and all((n in %s) == (%s or '
+              'any(0 <= i and i < len(event_names) and event_names[i] == n for i in Int) or '
+              'n in event_mappings) for n in Str))' % (nothing, newmap, inh_has)),
+          'own-override-inherited': (
+              'implies(not (%s), all(implies(n in %s, %s[n] == (event_mappings[n] if n in event_mappings '
+              'else (n if any(0 <= i and i < len(event_names) and event_names[i] == n for i in Int) '
+              'else old(events_obj(cls).m)[n]))) for n in Str))' % (nothing, newmap, newmap)),
+          'bases-unaltered': ('all(implies(t != cls, events_obj(t) == old(events_obj(t))) for t in Type) and '
+                              'all(implies(old(allocated(o)), o.m == old(o.m)) for o in EvMap)'),
+          'fresh-mapping-object': 'implies(not (%s), let(o=events_obj(cls), body=not old(allocated(o))))' % nothing,
+      })
+
+
+_register_ev0 = register
+
+
+def register(spec):     # noqa: F811
+    _register_ev0(spec)
+    register_decorator(spec)
